@@ -168,6 +168,19 @@ Fixpoint ptd_empty (t : ptd) : bool :=
        end) ents
   end.
 
+(* a None value somewhere in the tensordict (only a swap returned for a custom-__setattr__ module can hold one):
+   flatten_keys(".") raises AttributeError on it *)
+Fixpoint ptd_has_none (t : ptd) : bool :=
+  match t with PTD ents =>
+    (fix go (l : list (string * pent)) : bool :=
+       match l with
+       | [] => false
+       | (_, PLeaf None) :: _ => true
+       | (_, PLeaf (Some _)) :: r => go r
+       | (_, PSub t') :: r => ptd_has_none t' || go r
+       end) ents
+  end.
+
 (* convert_type under use_state_dict: Parameters and Buffers are re-wrapped, plain tensors pass *)
 Definition usd_wrap (st : tstate) (o : obj) : obj * tstate :=
   match okd o with
@@ -253,6 +266,7 @@ Fixpoint to_mod (cfg : tmcfg) (t : ptd) (m : Z) (st : tstate) (memo : memo_t) {s
   | None => TmErr st EOther                                   (* dangling module id: outside the model's domain *)
   | Some node0 =>
     if c_usd cfg && (match c_inplace cfg with Some _ => true | None => false end) then TmErr st EOther else
+    if c_usd cfg && ptd_has_none t then TmErr st EAttrError else      (* self.flatten_keys(".") *)
     let memo0 := if c_return_swap cfg then z_set memo m (PTD []) else memo in
     match t with PTD ents =>
       let go := tm_go (to_mod cfg) cfg m (m_custom node0) (m_subs node0) in
